@@ -116,13 +116,34 @@ func (g *docGen) inline(depth int) string {
 	}
 }
 
+var sprinkleClasses = []string{"comment", "sidebar", "footer", "share", "social", "sponsor", "related", "widget", "promo", "hidden", "caption", "byline", "article", "content", "main", "entry", "post", "text", "pager", "pagination", "meta", "tags", "breadcrumb", "banner", "ad-wrap", "print", "skyscraper", "disqus_thread", "community", "remark", "shopping", "tweet-box", "masthead", "outbrain", "popup"}
+
+// attrs sometimes returns a class and/or id attribute from a vocabulary the
+// heuristics care about, for arbitrary elements (inside tables, lists, quotes...).
+func (g *docGen) attrs() string {
+	if !g.r.P(1, 5) {
+		return ""
+	}
+	g.f("sprinkled-class")
+	c := Pick(g.r, sprinkleClasses)
+	switch g.r.Intn(4) {
+	case 0:
+		return ` class="` + c + `"`
+	case 1:
+		return ` id="` + c + `"`
+	case 2:
+		return ` class="` + c + `" id="` + Pick(g.r, sprinkleClasses) + `"`
+	}
+	return ` class="` + c + " " + Pick(g.r, sprinkleClasses) + `"`
+}
+
 func (g *docGen) paragraph() {
 	n := g.r.Range(1, 7)
 	tag := "p"
 	if g.r.P(1, 8) {
 		tag = "div"
 	}
-	g.wf("<%s>", tag)
+	g.wf("<%s%s>", tag, g.attrs())
 	if g.r.P(1, 15) {
 		g.f("dropcap")
 		g.w(`<span class="dropcap">T</span>`)
@@ -144,7 +165,7 @@ func (g *docGen) list(depth int) {
 	g.wf("<%s>", tag)
 	n := g.r.Range(1, 5)
 	for i := 0; i < n; i++ {
-		g.w("<li>")
+		g.w("<li" + g.attrs() + ">")
 		g.w(g.words(g.r.Range(2, 25)))
 		if depth < 3 && g.r.P(1, 4) {
 			g.f("nested-list")
@@ -181,7 +202,11 @@ func (g *docGen) table(data bool) {
 		for r := 0; r < rows; r++ {
 			g.w("<tr>")
 			for c := 0; c < cols; c++ {
-				g.w(`<td style="x" class="c">` + g.words(g.r.Range(1, 4)) + "</td>")
+				if g.r.P(1, 6) {
+					g.w(`<td><div` + g.attrs() + `>` + g.words(g.r.Range(10, 60)) + "</div></td>")
+				} else {
+					g.w(`<td style="x" class="c">` + g.words(g.r.Range(1, 4)) + "</td>")
+				}
 			}
 			g.w("</tr>")
 		}
@@ -189,8 +214,18 @@ func (g *docGen) table(data bool) {
 		return
 	}
 	g.f("layout-table")
-	g.w(`<table role="presentation"><tr><td>`)
+	if g.r.Bool() {
+		g.w(`<table role="presentation"><tr><td>`)
+	} else {
+		g.w(`<table><tr><td` + g.attrs() + `>`)
+	}
 	g.paragraph()
+	for i := 0; i < g.r.Intn(4); i++ {
+		g.w(`<div` + g.attrs() + `>`)
+		g.paragraph()
+		g.paragraph()
+		g.w(`</div>`)
+	}
 	if g.r.P(1, 3) {
 		g.w("<table><tr><td>" + g.words(20) + "</td></tr></table>")
 	}
@@ -308,7 +343,7 @@ func (g *docGen) unlikely(big bool) {
 
 // pager writes a pager and returns a page URL consistent with it.
 func (g *docGen) pager(host string) string {
-	kind := g.r.Intn(9)
+	kind := g.r.Intn(11)
 	n := g.r.Range(2, 9)
 	cur := g.r.Range(1, n)
 	var hrefs []string
@@ -353,6 +388,49 @@ func (g *docGen) pager(host string) string {
 	case 8:
 		g.f("pager-descending")
 		mk = func(i int) string { return fmt.Sprintf("%s/thread/%d", base, n-i+1) }
+	case 9, 10:
+		// fuzzed template: the page number at an arbitrary place of path or
+		// query, with arbitrary short neighbours; page 1 may drop the number
+		// together with some of its neighbours
+		g.f("pager-fuzz")
+		seg := []string{"x", "a", "b", "page", "p", "2", "10", "story", "a-b", "x.html", ""}
+		pre := ""
+		for i := 0; i < g.r.Range(0, 3); i++ {
+			pre += "/" + Pick(g.r, seg)
+		}
+		lead := Pick(g.r, []string{"/", "/p", "/page-", "-", "_", "/x", "?p=", "?a=1&page=", "&n=", "/", "/", ",", "."})
+		if pre == "" && lead[0] != '/' && lead[0] != '?' {
+			pre = "/" + Pick(g.r, []string{"x", "a", "story"})
+		}
+		trail := Pick(g.r, []string{"", "", "x", "/", ".html", "/a/b", "-x", "/" + Pick(g.r, seg), "?x=1", "#c", "&b=2"})
+		abs := g.r.Bool()
+		mul := Pick(g.r, []int{1, 1, 1, 10, 25})
+		firstBare := g.r.P(1, 2)
+		bareKind := g.r.Intn(3)
+		mk = func(i int) string {
+			num := i
+			if mul != 1 {
+				num = (i - 1) * mul
+			}
+			h := pre + lead + fmt.Sprint(num) + trail
+			if i == 1 && firstBare {
+				switch bareKind {
+				case 0:
+					h = pre
+				case 1:
+					h = pre + trail
+				default:
+					h = pre + "/"
+				}
+				if h == "" {
+					h = "/"
+				}
+			}
+			if abs {
+				return base + h
+			}
+			return h
+		}
 	}
 	if hrefs == nil {
 		for i := 1; i <= n; i++ {
@@ -462,6 +540,14 @@ func (g *docGen) head(host string) {
 		g.f("ie-reader-meta")
 		g.wf(`<meta name="Displaydate" content="March %d, 2014"><meta name="copyright" content="(c) %s">`, g.r.Range(1, 28), g.word())
 	}
+	if g.r.P(1, 8) {
+		g.f("base-href")
+		g.wf(`<base href="%s">`, Pick(g.r, []string{"http://static.example.org/assets/", "/sub/dir/", "https://cdn.example.com/", "//other.example.net/x/", "javascript:void(0)", "", "../", "http://" + host + "/base/"}))
+	}
+	if g.r.P(1, 10) {
+		g.f("meta-refresh")
+		g.wf(`<meta http-equiv="refresh" content="5; url=http://%s/next"><meta name="robots" content="noindex"><link rel="amphtml" href="/amp">`, host)
+	}
 	if g.r.P(1, 4) {
 		g.f("link-rel-next")
 		g.wf(`<link rel="next" href="http://%s/next"><link rel="canonical" href="http://%s/canon">`, host, host)
@@ -538,7 +624,7 @@ func (g *docGen) body(host string) string {
 			g.list(0)
 		case x < 25:
 			g.f("blockquote")
-			g.w("<blockquote>")
+			g.w("<blockquote" + g.attrs() + ">")
 			if g.r.Bool() {
 				g.paragraph()
 			} else {
@@ -618,6 +704,13 @@ func Document(seed uint64) GenDoc {
 	sortStrings(d.Features)
 	d.Origin = fmt.Sprintf("gen:%x", seed)
 	return d
+}
+
+func boolInt(b bool) int {
+	if b {
+		return 1
+	}
+	return 0
 }
 
 func sortStrings(s []string) {
@@ -822,4 +915,107 @@ func Mutate(r *Rand, b []byte, other []byte) ([]byte, string) {
 		return c, fmt.Sprintf("mut:delete@%d-%d", k, j)
 	}
 	return b, "mut:none"
+}
+
+// PagerDoc builds a small page dominated by a numeric pager drawn from a
+// grammar of URL templates (page number at the start, middle or end of a path
+// component or in a query parameter, arbitrary short prefix and suffix, first
+// page with or without the number) together with candidate page URLs. Small
+// pages run fast, so thousands of pager shapes fit into a quick batch.
+func PagerDoc(seed uint64) GenDoc {
+	r := Derive(seed, 0x9a6e4)
+	segs := []string{"x", "a", "b", "story", "p", "2", "10", "a-b", "n1"}
+	pre := ""
+	for i := 0; i < r.Range(0, 3); i++ {
+		pre += "/" + Pick(r, segs)
+	}
+	type tpl struct{ lead, trail string }
+	var t tpl
+	switch r.Intn(6) {
+	case 0: // number starts a path component, something follows in the same component
+		t = tpl{"/", Pick(r, []string{"x", "-b", ".html", "a", "_2", "x/y"})}
+	case 1: // number is a whole path component
+		t = tpl{"/", Pick(r, []string{"", "/", "/a", "/a/b", "/" + pre})}
+	case 2: // number ends a path component
+		t = tpl{Pick(r, []string{"/p", "/page-", "/page", "-", "_", "/x"}), Pick(r, []string{"", "/", ".html", "/a"})}
+	case 3: // number in the middle of a component
+		t = tpl{Pick(r, []string{"/a", "/p-", "/x_"}), Pick(r, []string{"b", "-x", "x.html"})}
+	case 4: // query parameter
+		t = tpl{Pick(r, []string{"?p=", "?page=", "?a=1&page=", "?page=1&x=", "/?p="}), Pick(r, []string{"", "&b=2", "#c", "&page=3"})}
+	default: // pre-encoded / odd
+		t = tpl{Pick(r, []string{"/%70", "/p%2F", ";p=", "//", "/./"}), Pick(r, []string{"", "/", "%20"})}
+	}
+	if pre == "" && t.lead[0] != '/' && t.lead[0] != '?' {
+		pre = "/x"
+	}
+	host := Pick(r, []string{"example.com", "www.example.com", "example.com:8080"})
+	base := "http://" + host
+	n := r.Range(2, 7)
+	mul := Pick(r, []int{1, 1, 1, 1, 10})
+	bare := r.Intn(5) // 0,1: page 1 keeps the number; 2: prefix only; 3: prefix+trail; 4: prefix + "/"
+	abs := r.Bool()
+	href := func(i int) string {
+		num := i
+		if mul != 1 {
+			num = (i - 1) * mul
+		}
+		h := pre + t.lead + fmt.Sprint(num) + t.trail
+		if i == 1 {
+			switch bare {
+			case 2:
+				h = pre
+			case 3:
+				h = pre + t.trail
+			case 4:
+				h = pre + "/"
+			}
+			if h == "" {
+				h = "/"
+			}
+		}
+		return h
+	}
+	var sb strings.Builder
+	sb.WriteString("<html><head><title>Pager page</title></head><body><h1>Pager page</h1><p>")
+	for i := 0; i < r.Range(20, 120); i++ {
+		fmt.Fprintf(&sb, "pw%x_%d ", seed&0xfff, i)
+	}
+	sb.WriteString("</p>\n<div class=\"pager\">")
+	cur := r.Range(1, n)
+	skip := -1
+	if r.P(1, 4) {
+		skip = r.Range(1, n) // a page missing from the pager
+	}
+	for i := 1; i <= n; i++ {
+		if i == skip {
+			continue
+		}
+		h := href(i)
+		if abs {
+			h = base + h
+		}
+		if i == cur && r.P(1, 2) {
+			fmt.Fprintf(&sb, "<b>%d</b> ", i)
+		} else {
+			fmt.Fprintf(&sb, `<a href="%s">%d</a> `, h, i)
+		}
+	}
+	if r.P(1, 3) {
+		fmt.Fprintf(&sb, `<a href="%s">next</a>`, href(min(cur+1, n)))
+	}
+	sb.WriteString("</div></body></html>")
+	var url string
+	switch r.Intn(6) {
+	case 0, 1:
+		url = base + href(cur)
+	case 2:
+		url = base + href(1)
+	case 3:
+		url = base + pre
+	case 4:
+		url = base + href(cur) + "/"
+	default:
+		url = base + href(n)
+	}
+	return GenDoc{Bytes: []byte(sb.String()), URL: url, Origin: fmt.Sprintf("pagerdoc:%x", seed), Features: []string{"pagerdoc", fmt.Sprintf("pagerdoc-bare%d", bare)}, UTF8: true}
 }
